@@ -374,6 +374,10 @@ class ConfigManager:
                     "INSERT OR REPLACE INTO settings (key, value) VALUES ('current_environment_api_url', ?)",
                     (DEFAULT_ENVIRONMENT.api_url,),
                 )
+                # The active profile belonged to the deleted environment; do
+                # not let its *name* silently select a same-named profile of
+                # the default environment (switch_environment clears it too).
+                conn.execute("DELETE FROM settings WHERE key = 'current_profile'")
 
             conn.commit()
             return True
